@@ -906,11 +906,19 @@ impl ExprCompiled {
         step: Option<IrSpanned<ExprCompiled>>,
         ctx: &mut OptCtx,
     ) -> ExprCompiled {
+        // A bound can be folded when it is absent or a constant: `Some(None)` is an absent bound,
+        // `None` is a bound which is present but not a constant.
+        fn bound(e: &Option<IrSpanned<ExprCompiled>>) -> Option<Option<FrozenValue>> {
+            match e {
+                None => Some(None),
+                Some(e) => e.as_value().map(Some),
+            }
+        }
         if let (Some(array), Some(start), Some(stop), Some(step)) = (
             array.as_builtin_value(),
-            start.as_ref().map(|e| e.as_value()),
-            stop.as_ref().map(|e| e.as_value()),
-            step.as_ref().map(|e| e.as_value()),
+            bound(&start),
+            bound(&stop),
+            bound(&step),
         ) {
             if let Ok(v) = array.to_value().slice(
                 start.map(|v| v.to_value()),
